@@ -25,6 +25,11 @@ func checkC20(c *Ctx) {
 	r.Rule("R20h", "the mock walker's visited set is path-scoped (marked on entry, unmarked on return)", 1)
 	r.Rule("R20i", "the mock walker's visited set is keyed by the message's full name (no two messages share a key)", 1)
 	visitedKeysInjective(c, "R20i", func(fn *types.Func) bool { return strings.HasSuffix(fn.Pkg().Path(), "internal/httpgen") })
+	r.Rule("R20j", "the mock unit names message types reached through fields by GoIdent (qualified, imported), never by bare name (shared with C13/R13k)", 1)
+	if ri := c.Root(pkgHTTP, "_http_mock.pb.go"); ri != nil {
+		bareForeignTypeNames(c, "R20j", []RootInfo{*ri})
+	}
+	c20ExampleCollector(c)
 	r.Rule("R20d", "example values and table keys are printed quoted", 1)
 	r.Rule("R20e", "example table keys and selector lookup keys have the same format", 1)
 	r.Rule("R20f", "file-independent package-level names in per-file units", 1)
@@ -334,4 +339,58 @@ func normKeyExpr(segs []Seg, after, before string) string {
 		}
 	}
 	return strings.Trim(strings.TrimSpace(t), `"`)
+}
+
+// c20ExampleCollector: R20k — the function that fills the emitted fieldExamples table visits the nested messages of
+// every message: nothing ahead of its loop over message.Messages may leave the function (the selectors look the
+// examples of nested messages up under Outer.Inner.field whatever Outer's own fields are).
+func c20ExampleCollector(c *Ctx) {
+	r := c.R
+	r.Rule("R20k", "the example-table collector visits nested messages unconditionally", 1)
+	fn := c.P.Func(pkgHTTP, "Generator.collectMessageFieldExamples")
+	if fn == nil {
+		r.Unres("R20k", "collectMessageFieldExamples", "", "not found")
+		return
+	}
+	decl := c.P.Decls[fn]
+	info := c.P.DeclPkg[fn].TypesInfo
+	var loop *ast.RangeStmt
+	ast.Inspect(decl.Body, func(n ast.Node) bool {
+		rs, ok := n.(*ast.RangeStmt)
+		if !ok || !strings.HasSuffix(types.ExprString(rs.X), ".Messages") {
+			return true
+		}
+		ast.Inspect(rs.Body, func(m ast.Node) bool {
+			if call, ok := m.(*ast.CallExpr); ok && Callee(info, call) == fn {
+				loop = rs
+			}
+			return true
+		})
+		return true
+	})
+	pos := c.P.Pos(decl.Pos())
+	if loop == nil {
+		r.Bad("R20k", "collectMessageFieldExamples recurses into message.Messages", pos, "the collector has no loop over the nested messages that calls itself: examples declared on nested messages never reach the table the selectors consult", nil)
+		return
+	}
+	early := ""
+	ast.Inspect(decl.Body, func(n ast.Node) bool {
+		switch x := n.(type) {
+		case *ast.FuncLit:
+			return false
+		case *ast.ReturnStmt:
+			if x.Pos() < loop.Pos() {
+				early = c.P.Pos(x.Pos())
+			}
+		}
+		return true
+	})
+	topLevel := false
+	for _, st := range decl.Body.List {
+		if st == ast.Stmt(loop) {
+			topLevel = true
+		}
+	}
+	r.Check(early == "" && topLevel, "R20k", "collectMessageFieldExamples reaches its loop over the nested messages on every path", pos,
+		fmt.Sprintf("collectMessageFieldExamples can return (at %s) before it has visited message.Messages (loop at top level: %v): the examples of messages nested in such a message are missing from the emitted table, and the mock answers with the built-in placeholder values instead of the declared examples", early, topLevel))
 }
